@@ -368,9 +368,42 @@ fn c02_gen(seed: u64, run: u64, thorough: bool) -> Plan {
     let mut plan = world_a_general_with("C02", "a_fault_then_fair", seed, run, &sc, true, &|w| {
         if run % 3 == 1 {
             w.lead_pattern_p = 0.5;
+            w.tiny_burst_p = 0.2;
             w.channels = w.channels.max(2);
         }
+        // the runs added later (index 3000 and up) lean on bursts of 120..300 packets of 0-3
+        // bytes in a resend mode, submitted in one instant: data frames closed by the limit of
+        // 127 datagrams, with the next fragment opening a new frame, under loss
+        if run >= 3000 {
+            w.tiny_mode = if run % 2 == 0 { MODE_RELIABLE } else { MODE_PERSISTENT };
+        }
     });
+    if run >= 3000 {
+        // warm-up traffic first (so that the allowed rate lets one flush emit more than one
+        // frame), then the burst, then a few more packets
+        let mut rb = Rng::keyed(&[seed, run, 0xc02b]);
+        let short_ch = plan.param("short_ch", 0.0) as u8;
+        let tiny_mode = if run % 2 == 0 { MODE_RELIABLE } else { MODE_PERSISTENT };
+        let mut tag = 800_000u32;
+        let t_burst = rb.range(300_000, fault_until.max(300_001));
+        for _ in 0..rb.range(1, 12) {
+            let t = rb.below(t_burst);
+            plan.push(t, 0x4000_0000 + tag, Op::Send { ep: 0, to: None, ch: short_ch, mode: *rb.pick(&[MODE_RELIABLE, MODE_PERSISTENT]), len: rb.range(12, 1400) as u32, tag });
+            tag += 1;
+        }
+        for _ in 0..rb.range(1, 3) {
+            let t = rb.range(t_burst, fault_until.max(t_burst + 1));
+            for _ in 0..*rb.pick(&[127u32, 128, 129, 130, 200, 254, 255, 300]) {
+                plan.push(t, 0x4000_0000 + tag, Op::Send { ep: 0, to: None, ch: short_ch, mode: tiny_mode, len: rb.below(4) as u32, tag });
+                tag += 1;
+            }
+            if rb.chance(0.5) {
+                plan.push(t, 0x4000_0000 + tag, Op::Send { ep: 0, to: None, ch: short_ch, mode: MODE_RELIABLE, len: rb.range(12, 200) as u32, tag });
+                tag += 1;
+            }
+        }
+        plan.sort();
+    }
     // bounded backlog: at most 64 frames worth of payload per direction
     let mut bytes = [0u64; 2];
     plan.timeline.retain(|t| match &t.op {
@@ -437,7 +470,7 @@ pub fn c02() -> CheckDef {
                 what: "loss-free link (latency 0.1-100 ms, jitter, duplicates), one side streams Reliable packets every 3 ms .. timeout/3 for 2-4 (thorough: 2-8) silence timeouts (1.5-25 s), the other side only acknowledges, with its keepalive off, slower than the timeout, or on: nothing may end the connection, so every packet has to arrive" }],
         panic_is_violation: no_panics,
         hang_is_violation: false,
-        quick_runs: 3000,
+        quick_runs: 4500,
         thorough_runs: 40_000,
         rule: "one case = one simulated run; distinct = distinct run digest; non-trivial = at least 10 packets delivered",
         real_code: REAL_A,
@@ -1656,6 +1689,7 @@ fn c13_gen_ack_flood(seed: u64, run: u64, thorough: bool) -> Plan {
     let n_pk = r.range(10, 200);
     let mut w = Workload::sample(&mut r, n_pk, 3000);
     w.lead_pattern_p = 0.0;
+    w.tiny_burst_p = 0.0;
     w.sends(&mut r, &mut plan, 0, None, 100_000, 2_000_000, 0);
     // the flood begins once the victim has exchanged some traffic (and holds an RTT estimate)
     plan.params.insert("hostile_start_us".into(), r.range(3_000_000, 6_000_000) as f64);
@@ -1693,6 +1727,7 @@ fn c13_gen_sync_flood(seed: u64, run: u64, thorough: bool) -> Plan {
     let n_pk = (ceiling as u64 * 25 / 1000).max(30);
     let mut w = Workload::sample(&mut r, n_pk, 3000);
     w.lead_pattern_p = 0.0;
+    w.tiny_burst_p = 0.0;
     w.sends(&mut r, &mut plan, 0, None, 100_000, 1_000_000, 0);
     plan.params.insert("hostile_start_us".into(), r.range(2_000_000, 4_000_000) as f64);
     plan.params.insert("hostile_focus".into(), 6.0);
@@ -2131,7 +2166,7 @@ pub fn c09() -> CheckDef {
             what: "0-200 packets of mixed modes queued (30 %: followed by 1-4 Reliable packets without payload), then disconnect() (70 %) or disconnect_now() from the client or the server; loss/dup/reorder/corruption of data, ack, disconnect and disconnect-ack frames; total or one-way blackout starting right after the call (sometimes healing); the peer passive or (15 %) disconnecting as well; active timeouts 2-20 s" }],
         panic_is_violation: no_panics,
         hang_is_violation: false,
-        quick_runs: 8000,
+        quick_runs: 10_000,
         thorough_runs: 40_000,
         rule: "one case = one simulated run; distinct = distinct run digest; non-trivial = a flush guarantee or a termination deadline was evaluated",
         real_code: REAL_B,
